@@ -28,7 +28,7 @@ Qed.
    streaming keys need none of it) *)
 Definition p5_std : stdlib :=
   mkStd (fun _ _ => false) (fun _ _ => None) (fun _ => []) (fun _ _ => None) (fun _ _ => [])
-        (fun _ _ _ _ _ => None) (fun _ _ _ _ _ _ _ _ => false).
+        (fun _ _ _ _ _ => None) (fun _ _ _ _ _ _ _ _ => false) (fun _ _ => []).
 
 (* MlDsaPublicKey { version = 1; key_value = 2; params = 3 { ml_dsa_instance = 1 } }: ML-DSA-44, 1312 bytes *)
 Definition p5_mldsa_value : bytes := [18; 160; 10] ++ repeat 7 1312%nat ++ [26; 2; 8; 3].
@@ -60,3 +60,40 @@ Example prefix5_unregistered_rejected_example :
   let ks := mkKS 9 [p5_key [120; 121] [1; 2; 3] km_remote 9] in
   validate (Some ks) = true /\ handle_from_proto p5_std (Some ks) = Err.
 Proof. cbv zeta. repeat split; vm_compute; reflexivity. Qed.
+
+(* ------------------------------------------------------------------ *)
+(* ML-DSA / JWT ML-DSA private keys (transcribed in the second audit round):
+   an accepted private key holds a 32-byte seed whose generated public key is
+   the public key the message carries (mismatched parts are rejected)      *)
+(* ------------------------------------------------------------------ *)
+Lemma mldsa_priv_consistent (L : stdlib) kd prefix idreq d :
+  parse_mldsa_priv L kd prefix idreq = Ok d ->
+  let fs := fields_or_nil (kd_value kd) in
+  blen (get_len 2 fs) = 32
+  /\ mldsa_pub L (get_u32 1 (get_sub 3 (get_sub 3 fs))) (get_len 2 fs) = get_len 2 (get_sub 3 fs)
+  /\ kd_mat kd = km_private /\ d = PMlDsaPriv.
+Proof.
+  unfold parse_mldsa_priv. cbv zeta.
+  destruct (negb (kd_mat kd =? km_private)) eqn:M; [discriminate|].
+  destruct (negb (wire_ok _ _)); [discriminate|].
+  destruct (negb (_ && _)); [discriminate|].
+  destruct (negb (blen _ =? mldsa_seed_size)) eqn:S; [discriminate|].
+  destruct (beq _ _) eqn:B; [|discriminate]. intros H. inversion H.
+  apply negb_false_iff, N.eqb_eq in M, S. apply beq_eq in B. auto.
+Qed.
+
+Lemma jwt_mldsa_priv_consistent (L : stdlib) kd prefix idreq d :
+  parse_jwt_mldsa_priv L kd prefix idreq = Ok d ->
+  let fs := fields_or_nil (kd_value kd) in
+  blen (get_len 2 fs) = 32
+  /\ mldsa_pub L (jwt_mldsa_instance (get_u32 2 (get_sub 3 fs))) (get_len 2 fs) = get_len 3 (get_sub 3 fs)
+  /\ kd_mat kd = km_private /\ d = PJwtMlDsaPriv.
+Proof.
+  unfold parse_jwt_mldsa_priv. cbv zeta.
+  destruct (negb (kd_mat kd =? km_private)) eqn:M; [discriminate|].
+  destruct (negb (wire_ok _ _)); [discriminate|].
+  destruct (negb (_ && _)); [discriminate|].
+  destruct (negb (blen _ =? mldsa_seed_size)) eqn:S; [discriminate|].
+  destruct (beq _ _) eqn:B; [|discriminate]. intros H. inversion H.
+  apply negb_false_iff, N.eqb_eq in M, S. apply beq_eq in B. auto.
+Qed.
